@@ -44,21 +44,21 @@ def logicOperand (e : Exp α) (s : String) : String :=
     | .not inner => if isLeaf inner then s else "(" ++ s ++ ")"
     | _ => "(" ++ s ++ ")"
 
-/-- `ctx = none`: `impl Display for Exp`;  `ctx = some last`: `to_string_with_precedence(last)`
-(which falls back to `Display` for everything but a `BinOp`). -/
-def showE (tok : α → String) : Option BinOp → Exp α → String
+/-- `needs_parens` of `Exp::operand_to_string`: the operand `op` binds weaker than `parent`, or
+equally and sits on the side the associativity does not favour. -/
+def parensRule (parent : BinOp) (isRhs : Bool) (op : BinOp) : Bool :=
+  let sameLevelNeedsParens := if isRhs then Gen.binLeftAssoc parent else !Gen.binLeftAssoc op
+  decide (Gen.binPrec op < Gen.binPrec parent) || (Gen.binPrec op == Gen.binPrec parent && sameLevelNeedsParens)
+
+/-- `ctx = none`: `impl Display for Exp`;  `ctx = some (parent, isRhs)`: `operand_to_string(parent, is_rhs)`
+(which falls back to `Display` for everything but a `BinOp`; `to_string_with_precedence(last)` is
+`operand_to_string(last, false)`). -/
+def showE (tok : α → String) : Option (BinOp × Bool) → Exp α → String
   | ctx, .bin op lhs rhs =>
-    let sl := showE tok (some op) lhs
-    let sr := showE tok (some op) rhs
+    let rendered := showE tok (some (op, false)) lhs ++ " " ++ binOpStr op ++ " " ++ showE tok (some (op, true)) rhs
     match ctx with
-    | none => sl ++ " " ++ binOpStr op ++ " " ++ sr
-    | some last =>
-      if Gen.binPrec op < Gen.binPrec last then "(" ++ sl ++ " " ++ binOpStr op ++ " " ++ sr ++ ")"
-      else match last with
-        | .sub =>
-          if isLeaf rhs then sl ++ " " ++ binOpStr op ++ " " ++ sr
-          else sl ++ " " ++ binOpStr op ++ " (" ++ sr ++ ")"
-        | _ => sl ++ " " ++ binOpStr op ++ " " ++ sr
+    | none => rendered
+    | some (parent, isRhs) => if parensRule parent isRhs op then "(" ++ rendered ++ ")" else rendered
   | _, .num v => tok v
   | _, .var n => n
   | _, .abs e => "abs{ " ++ showE tok none e ++ " }"
@@ -88,16 +88,19 @@ variable {α : Type} [Arith α]
 
 def intStr (i : Int) : String := toString i
 
+/-- `domain_bound_to_string`: the infinities are the constants `Infinity` / `MinusInfinity` on either side. -/
+def domainBoundStr (tok : α → String) (v : α) : String :=
+  if Arith.eq v posInf then "Infinity" else if Arith.eq v negInf then "MinusInfinity" else tok v
+
 /-- `impl Display for VariableType`. -/
 def varTypeStr (tok : α → String) : VarType α → String
   | .bool => "Boolean"
   | .nnreal lo hi =>
     if Arith.eq lo zero && Arith.eq hi posInf then "NonNegativeReal"
-    else "NonNegativeReal(" ++ tok lo ++ ", " ++ (if Arith.eq hi posInf then "Infinity" else tok hi) ++ ")"
+    else "NonNegativeReal(" ++ domainBoundStr tok lo ++ ", " ++ domainBoundStr tok hi ++ ")"
   | .real lo hi =>
     if Arith.eq lo negInf && Arith.eq hi posInf then "Real"
-    else "Real(" ++ (if Arith.eq lo negInf then "MinusInfinity" else tok lo) ++ ", "
-      ++ (if Arith.eq hi posInf then "Infinity" else tok hi) ++ ")"
+    else "Real(" ++ domainBoundStr tok lo ++ ", " ++ domainBoundStr tok hi ++ ")"
   | .int lo hi => "IntegerRange(" ++ intStr lo ++ ", " ++ intStr hi ++ ")"
 
 /-- `domain_groups.entry(type_str).or_default().push(name)` on an insertion-ordered map. -/
@@ -123,7 +126,10 @@ def domainBlock (tok : α → String) (domain : List (DomVar α)) : String :=
 
 /-- `impl Display for Model`. -/
 def displayModel (tok : α → String) (m : Model α) : String :=
-  optStr m.optType ++ " " ++ displayExp tok m.objective ++ "\ns.t.\n    "
+  -- `impl Display for Objective`: `solve` takes no expression
+  (match m.optType with
+   | .satisfy => optStr m.optType
+   | _ => optStr m.optType ++ " " ++ displayExp tok m.objective) ++ "\ns.t.\n    "
     ++ joinWith "\n    " (m.constraints.map (displayConstraint tok)) ++ domainBlock tok m.domain
 
 /-- `10_f64.powi(-(NEAR_ZERO_PRECISION as i32))` -/
@@ -137,7 +143,7 @@ def isZero (c : α) : Bool := Arith.eq c zero
 
 /-- the two decisions of `format_var`: is a minus sign shown, and which magnitude token (none for ±1). -/
 def formatVarParts (value : α) : Bool × Option α :=
-  (floatLt value zero,
+  (Arith.lt value zero,
    if Arith.eq value one || Arith.eq value (Arith.neg one) then none else some (Arith.abs value))
 
 /-- `format_var`. -/
@@ -186,7 +192,11 @@ def displayLin (tok : α → String) (lm : LinModel α) : Option String :=
       if isZero lm.offset then ""
       else if floatLt lm.offset zero then " - " ++ tok (Arith.abs lm.offset)
       else " + " ++ tok lm.offset
-    some (optStr lm.optType ++ " " ++ objective ++ offset ++ "\ns.t.\n" ++ joinWith "\n" rows ++ domainBlock tok lm.domain)
+    -- `solve` takes no expression in the grammar
+    let objective := match lm.optType with
+      | .satisfy => ""
+      | _ => " " ++ objective ++ offset
+    some (optStr lm.optType ++ objective ++ "\ns.t.\n" ++ joinWith "\n" rows ++ domainBlock tok lm.domain)
   | _, _ => none
 
 end Numeric
